@@ -1,7 +1,7 @@
 """C06 — BVH + narrow phase = brute force (structural, thin)."""
 from . import scopes
 from ..core.report import DOMAIN_D
-from ..rules import bvh, aabbtree, colliders, unpack
+from ..rules import bvh, aabbtree, colliders, unpack, misc2
 
 
 def run(idx, rep, tier):
@@ -25,4 +25,5 @@ def run(idx, rep, tier):
     aabbtree.r_bookkeep(idx, rep)
     aabbtree.r_unique(idx, rep)
     colliders.r_coherence(idx, rep, relevant_to="aabb")      # only what the broad phase reads: the pose and the attributes aabb() uses
+    misc2.r_dupcond(idx, rep, [m.name for m in idx.lib_modules()], floor=3)
     unpack.r_unpack(idx, rep, floor=6)
